@@ -6,6 +6,7 @@ import glob, json, os, re, subprocess, sys, time
 
 WT = "/tmp/wt_verify"
 PY = "/venv/bin/python"
+INC = os.environ.get("SEED_INCOMING", "_incoming")
 
 
 def sh(cmd, cwd=None, env=None, timeout=1800):
@@ -16,7 +17,7 @@ def sh(cmd, cwd=None, env=None, timeout=1800):
 
 
 def suite():
-    rc, out = sh(f"{PY} -m pytest -q -p no:cacheprovider -n 10 --timeout=900 --continue-on-collection-errors 2>&1 | tail -n 80", cwd=WT, env={"PYTHONPATH": WT})
+    rc, out = sh(f"{PY} -m pytest -q -p no:cacheprovider -n 8 --timeout=900 --continue-on-collection-errors 2>&1 | tail -n 80", cwd=WT, env={"PYTHONPATH": WT})
     failed = sorted(set(re.findall(r"^FAILED (\S+)", out, re.M)))
     errors = sorted(set(re.findall(r"^ERROR (\S+)", out, re.M)))
     m = re.search(r"(\d+) passed", out)
@@ -29,7 +30,7 @@ def main():
     sh(f"git -C /repo worktree add --detach {WT} HEAD")
     base = suite()
     print("baseline", base["passed"], base["failed"], flush=True)
-    for d in sorted(glob.glob("/verif/seeded/_incoming/C*")):
+    for d in sorted(glob.glob(f"/verif/seeded/{INC}/C*")):
         pid = os.path.basename(d)
         if only and pid not in only:
             continue
